@@ -13,12 +13,32 @@ variable {σ τ : Type}
 structure SchedInv (I : SchedI σ τ) (P : σ → Env → Prop) (Ok : σ → SOp τ → Prop) : Prop where
   step : ∀ {s e op s' e' r}, P s e → Ok s op → I.step s e op = .ok (s', e', r) → P s' e'
   shutdown : ∀ {s e} (n : Nat), P s e → P s (e.shutdown n)
-  /-- only steal answers carry a side condition -/
-  free : ∀ s op, (∀ n is, op ≠ .removePending n is) → Ok s op
+  /-- `worker_collectionfinish`: registering a collection and — when the collection is then complete — the `schedule()` call
+      that follows in the same handler are one step for the invariant -/
+  collect : ∀ {s e n c s1 e1 r1}, P s e → I.step s e (.addNodeCollection n c) = .ok (s1, e1, r1) →
+    (I.collectionIsCompleted s1 = false → P s1 e1) ∧
+    (∀ {s2 e2 r2}, I.collectionIsCompleted s1 = true → I.step s1 e1 .schedule = .ok (s2, e2, r2) → P s2 e2)
+  /-- only steal answers and the registration of a new worker carry a side condition -/
+  free : ∀ s op, (∀ n is, op ≠ .removePending n is) → (∀ n, op ≠ .addNode n) → (∀ n c, op ≠ .addNodeCollection n c) →
+    op ≠ .schedule → Ok s op
 
-/-- the side condition of an event: a steal answer must be legal in the state in which it is processed -/
+/-- an invariant kept by every single call under a side condition that only steal answers carry -/
+theorem SchedInv.ofStep {I : SchedI σ τ} {P : σ → Env → Prop} {Ok : σ → SOp τ → Prop}
+    (step : ∀ {s e op s' e' r}, P s e → Ok s op → I.step s e op = .ok (s', e', r) → P s' e')
+    (shutdown : ∀ {s e} (n : Nat), P s e → P s (e.shutdown n))
+    (free : ∀ s op, (∀ n is, op ≠ .removePending n is) → Ok s op) : SchedInv I P Ok :=
+  { step := step, shutdown := shutdown
+    collect := by
+      intro s e n c s1 e1 r1 hp h1
+      have p1 := step hp (free _ _ (by intro a b hh; cases hh)) h1
+      exact ⟨fun _ => p1, fun _ h2 => step p1 (free _ _ (by intro a b hh; cases hh)) h2⟩
+    free := fun s op h _ _ _ => free s op h }
+
+/-- the side condition of an event: a steal answer must be legal in the state in which it is processed, a worker that
+    reports ready must be a new one -/
 def EvOk (Ok : σ → SOp τ → Prop) (st : State σ τ) : Event τ → Prop
   | .unscheduled n is => Ok st.sched (.removePending n is)
+  | .workerready n => Ok st.sched (.addNode n)
   | _ => True
 
 variable {I : SchedI σ τ} {P : σ → Env → Prop} {Ok : σ → SOp τ → Prop}
@@ -47,7 +67,7 @@ theorem lift_handleCrashItem (h : SchedInv I P Ok) {st st' : State σ τ} {n : N
   split at h1
   · obtain ⟨a, ha, hb⟩ := map_ok.1 h1
     subst hb
-    have := lift_callSched (st' := a.1) h hp (h.free _ (.markPending t) (by intro n is hh; cases hh))
+    have := lift_callSched (st' := a.1) h hp (h.free _ (.markPending t) (by intro n is hh; cases hh) (by intro n hh; cases hh) (by intro n c hh; cases hh) (by intro hh; cases hh))
       (show callSched I st _ = .ok (a.1, a.2) by rw [ha])
     exact this
   · simp only [Except.ok.injEq] at h1; subst h1; exact hp
@@ -69,7 +89,7 @@ theorem lift_errordown (h : SchedInv I P Ok) {st st' : State σ τ} {n : Nat} {r
   simp only at he
   have hp0 : P ({ st with pubs := st.pubs ++ [Pub.nodedown n true] } : State σ τ).sched
       ({ st with pubs := st.pubs ++ [Pub.nodedown n true] } : State σ τ).env := hp
-  have free : ∀ s : σ, Ok s (.removeNode n) := fun s => h.free s (.removeNode n) (by intro a b hh; cases hh)
+  have free : ∀ s : σ, Ok s (.removeNode n) := fun s => h.free s (.removeNode n) (by intro a b hh; cases hh) (by intro a hh; cases hh) (by intro a b hh; cases hh) (by intro hh; cases hh)
   split at he
   · exact lift_removeActive (lift_restartOrStop h _ n hp0) he
   · simp at he
@@ -88,7 +108,7 @@ theorem lift_handle (h : SchedInv I P Ok) {st st' : State σ τ} {ev : Event τ}
     · simp only [Except.ok.injEq] at he; subst he; exact h.shutdown n hp
     · obtain ⟨a, ha, hb⟩ := map_ok.1 he
       subst hb
-      exact lift_callSched h hp (h.free _ (.addNode n) (by intro a b hh; cases hh)) (show callSched I st _ = .ok (a.1, a.2) by rw [ha])
+      exact lift_callSched h hp hok (show callSched I st _ = .ok (a.1, a.2) by rw [ha])
   | workerfinished n x sf ss =>
     simp only [handle] at he
     unfold workerfinished at he
@@ -109,7 +129,7 @@ theorem lift_handle (h : SchedInv I P Ok) {st st' : State σ τ} {ev : Event τ}
           · simp at he
           · rename_i st1 hc
             exact lift_removeActive (lift_callSched h (st := { st with pubs := st.pubs ++ [Pub.nodedown n false] }) hp
-              (h.free _ (.removeNode n) (by intro a b hh; cases hh)) hc) he
+              (h.free _ (.removeNode n) (by intro a b hh; cases hh) (by intro a hh; cases hh) (by intro a b hh; cases hh) (by intro hh; cases hh)) hc) he
         · exact lift_removeActive (P := P) (st := { st with pubs := st.pubs ++ [Pub.nodedown n false] }) hp he
   | internalError n =>
     simp only [handle] at he
@@ -125,12 +145,17 @@ theorem lift_handle (h : SchedInv I P Ok) {st st' : State σ τ} {ev : Event τ}
     · split at he
       · simp only [Except.ok.injEq] at he; subst he; exact hp
       · obtain ⟨r, hr, h2⟩ := bind_ok.1 he
-        have p1 := lift_callSched h hp (h.free _ (.addNodeCollection n ids) (by intro a b hh; cases hh)) (show callSched I st _ = .ok (r.1, r.2) by rw [hr])
+        have hc := h.collect hp (callSched_fields I (show callSched I st _ = .ok (r.1, r.2) by rw [hr])).1
+        have hr1 := (callSched_fields I (show callSched I st _ = .ok (r.1, r.2) by rw [hr]))
         split at h2
-        · obtain ⟨a, ha, hb⟩ := map_ok.1 h2
+        · rename_i hcomp
+          obtain ⟨a, ha, hb⟩ := map_ok.1 h2
           subst hb
-          exact lift_callSched h p1 (h.free _ .schedule (by intro a b hh; cases hh)) (show callSched I r.1 _ = .ok (a.1, a.2) by rw [ha])
-        · simp only [Except.ok.injEq] at h2; subst h2; exact p1
+          have ha1 := (callSched_fields I (show callSched I r.1 _ = .ok (a.1, a.2) by rw [ha])).1
+          exact hc.2 hcomp ha1
+        · rename_i hcomp
+          simp only [Except.ok.injEq] at h2; subst h2
+          exact hc.1 (by cases hh : I.collectionIsCompleted r.1.sched <;> simp_all)
   | testreport n failed =>
     simp only [handle, Except.ok.injEq] at he
     subst he
@@ -140,7 +165,7 @@ theorem lift_handle (h : SchedInv I P Ok) {st st' : State σ τ} {ev : Event τ}
     simp only [handle] at he
     obtain ⟨a, ha, hb⟩ := map_ok.1 he
     subst hb
-    exact lift_callSched h hp (h.free _ (.markComplete n i slow) (by intro a b hh; cases hh)) (show callSched I st _ = .ok (a.1, a.2) by rw [ha])
+    exact lift_callSched h hp (h.free _ (.markComplete n i slow) (by intro a b hh; cases hh) (by intro a hh; cases hh) (by intro a b hh; cases hh) (by intro hh; cases hh)) (show callSched I st _ = .ok (a.1, a.2) by rw [ha])
   | unscheduled n is =>
     simp only [handle] at he
     obtain ⟨a, ha, hb⟩ := map_ok.1 he
@@ -184,6 +209,25 @@ def AllEvOk (I : SchedI σ τ) (Ok : σ → SOp τ → Prop) (st : State σ τ) 
   | ev :: rest =>
     if sessionFinished st then True
     else EvOk Ok st ev ∧ (match loopOnce I st ev with | .ok st' => AllEvOk I Ok st' rest | .error _ => True)
+
+/-- the side conditions of a concrete event sequence can be computed (used for the non-vacuity examples) -/
+instance decAllEvOk (I : SchedI σ τ) (Ok : σ → SOp τ → Prop) [∀ s op, Decidable (Ok s op)] :
+    ∀ (st : State σ τ) (evs : List (Event τ)), Decidable (AllEvOk I Ok st evs)
+  | _, [] => isTrue trivial
+  | st, ev :: rest => by
+    unfold AllEvOk
+    cases hs : sessionFinished st with
+    | true => exact isTrue (by simp)
+    | false =>
+      simp only [Bool.false_eq_true, ↓reduceIte]
+      have : Decidable (EvOk Ok st ev) := by
+        cases ev <;> simp only [EvOk] <;> infer_instance
+      cases hl : loopOnce I st ev with
+      | error e => simp only; infer_instance
+      | ok st' =>
+        simp only
+        have := decAllEvOk I Ok st' rest
+        infer_instance
 
 /-- **the lifted invariant holds after every run of the controller loop** -/
 theorem lift_runLoop (h : SchedInv I P Ok) (evs : List (Event τ)) {st st' : State σ τ}
